@@ -12,7 +12,7 @@ def generate(seed, tier):
     n = 0
     lis_seqs = []
     for k in (1, 2, 3):
-        lis_seqs += list(itertools.product(["up", "down"], repeat=k))
+        lis_seqs += list(itertools.product(["up", "down"] if k == 3 else ["up", "down", "reset"], repeat=k))
     targets = []
     for cached in SCRIPTS:
         targets.append("client 1 %s" % cached)
@@ -30,9 +30,13 @@ def generate(seed, tier):
             if tier == "quick" and len(ls) == 3 and not g.chance(0.34):
                 continue
             lines.append("send new " + t)
+            seen_reset = False
             for i, st in enumerate(ls):
                 lines.append("send listener " + st)
-                lines.append("send msg %d" % (i + 1))
+                seen_reset = seen_reset or st == "reset"
+                # "accept then reset": whether the reset is seen by connect() or by the first write() depends on
+                # timing, so from then on only the oracle applies (exactly-once on success, nothing on error)
+                lines.append("send msg %d%s" % (i + 1, " # weak" if seen_reset else ""))
             lines.append("send end")
             n += 1
     g.count("fault_patterns", n)
